@@ -142,15 +142,16 @@ def acOnline (ss : List Supply) : Option (Option Int) :=
   let onl (n : Bytes) : FileState := match ss.find? (fun s => s.name == n) with | some s => s.online | none => .absent
   altInt (onl bAC0) (onl bAC)
 
-def pluggedOf (ss : List Supply) (b : Supply) : Option (Option Bool) :=
+/-- mains adapter `online` file when there is one (`1` = plugged), else the battery's status text -/
+def pluggedOf (ss : List Supply) (b : Supply) : Option Bool :=
   match acOnline ss with
-  | some (some v) => some (some (v == 1))
-  | some none => some (some false)              -- unreadable as a number: not `1`
+  | some (some v) => some (v == 1)
+  | some none => some false                     -- unreadable as a number: not `1`
   | none =>
     let st := lower (fileText b.status)
-    if st = bDischarging then some (some false)
-    else if st = bCharging ∨ st = bFull then some (some true)
-    else some none
+    if st = bDischarging then some false
+    else if st = bCharging ∨ st = bFull then some true
+    else none
 
 def secsleftOf (plugged : Option Bool) (now power tte : Option Int) : Int :=
   if plugged = some true then -2                                    -- POWER_TIME_UNLIMITED
@@ -161,31 +162,37 @@ def secsleftOf (plugged : Option Bool) (now power tte : Option Int) : Int :=
       | some m => if m * 60 < 0 then -1 else m * 60
       | none => -1                                                  -- POWER_TIME_UNKNOWN
 
+/-- the `capacity` file: percent; absent/unreadable or `-1` = no answer; garbage = silent -/
+def capacityPercent (f : FileState) : Option (Option Rat) :=
+  match fileInt f with
+  | none => some none
+  | some none => none
+  | some (some c) => if c = -1 then some none else some (some (c : Rat))
+
+/-- percent = now/full·100 (0 when full = 0); the `capacity` file when either is not there -/
+def percentOf (now full : Option Int) (capacity : FileState) : Option (Option Rat) :=
+  match now, full with
+  | some n, some f => some (some (if f = 0 then 0 else 100 * (n : Rat) / (f : Rat)))
+  | _, _ => capacityPercent capacity
+
 /-- outer `none`: silent (power_supply directory missing, or a consulted file holds no integer) -/
 def battery (p : PowerTree) : Option (Option BatOut) :=
   if !p.dirExists then none
   else match firstBattery p.supplies with
     | none => some none
     | some b =>
-      let unwrap (x : Option (Option Int)) : Option (Option Int) := x    -- none=absent, some none=garbage
-      match unwrap (altInt b.energyNow b.chargeNow), unwrap (altInt b.powerNow b.currentNow),
-            unwrap (altInt b.energyFull b.chargeFull), unwrap (fileInt b.timeToEmpty) with
-      | some none, _, _, _ | _, some none, _, _ | _, _, some none, _ | _, _, _, some none => none
-      | now, power, full, tte =>
-        let now := now.join; let power := power.join; let full := full.join; let tte := tte.join
-        let percent : Option (Option Rat) :=
-          match now, full with
-          | some n, some f => some (some (if f = 0 then 0 else 100 * (n : Rat) / (f : Rat)))
-          | _, _ =>
-            match fileInt b.capacity with
-            | none => some none
-            | some none => none
-            | some (some c) => if c = -1 then some none else some (some (c : Rat))
-        match percent, pluggedOf p.supplies b with
-        | none, _ | _, none => none
-        | some none, _ => some none
-        | some (some pc), some pl =>
-          some (some { percent := pc, secsleft := secsleftOf pl now power tte, plugged := pl })
+      let now := altInt b.energyNow b.chargeNow
+      let power := altInt b.powerNow b.currentNow
+      let full := altInt b.energyFull b.chargeFull
+      let tte := fileInt b.timeToEmpty
+      if now = some none ∨ power = some none ∨ full = some none ∨ tte = some none then none
+      else
+        match percentOf now.join full.join b.capacity with
+        | none => none
+        | some none => some none
+        | some (some pc) =>
+          let pl := pluggedOf p.supplies b
+          some (some { percent := pc, secsleft := secsleftOf pl now.join power.join tte.join, plugged := pl })
 
 /-! ### cpu_freq -/
 
@@ -197,16 +204,20 @@ def freqFront (percpu : Bool) (l : List Freq) : FreqOut :=
   else if l.length = 0 then .none
   else .one ⟨mean (l.map (·.current)), mean (l.map (·.min)), mean (l.map (·.max))⟩
 
-/-- one policy: kHz files → MHz; `info` = the MHz value of /proc/cpuinfo to prefer -/
+/-- current frequency of one policy in MHz: the /proc/cpuinfo value when given (kernel prints
+    three decimals), else `scaling_cur_freq`, else `cpuinfo_cur_freq` (kHz);
+    `none` = no source at all, `some none` = the property is silent (garbage) -/
+def curOf (p : Policy) (info : Option Rat) : Option (Option Rat) :=
+  match info with
+  | some mhz => if (mhz * 1000).den = 1 then some (some mhz) else some none
+  | none =>
+    match fileInt p.scalingCur with
+    | some v => some (v.map fun k => perMille (k : Rat))
+    | none => (fileInt p.cpuinfoCur).map fun v => v.map fun k => perMille (k : Rat)
+
+/-- one policy: kHz files → MHz; an offline CPU without any source gives zeros -/
 def policyRow (p : Policy) (info : Option Rat) (offline : Bool) : Option Freq :=
-  let cur : Option (Option Rat) :=        -- none = no source; some none = garbage
-    match info with
-    | some mhz => if (mhz * 1000).den = 1 then some (some mhz) else some none
-    | none =>
-      match fileInt p.scalingCur with
-      | some v => some (v.map fun k => perMille (k : Rat))
-      | none => (fileInt p.cpuinfoCur).map fun v => v.map fun k => perMille (k : Rat)
-  match cur with
+  match curOf p info with
   | none => if offline then some ⟨0, 0, 0⟩ else none
   | some none => none
   | some (some c) =>
